@@ -11,6 +11,9 @@ Grammar (line oriented; '#' starts a comment line; indentation continues a claus
     ret <ident>                              name for the return value (default r)
     external -- reason                       R10: keep the text, #[verifier::external_body]
     rule R13 | rule R14                      statement desugarings applied in this function
+    deref griddle|hb <table place expr>      R21: every `RECV.as_ref()` / `RECV.as_mut()` of this function (RECV a bucket) becomes
+                                             `bucket_ref(&RECV, &TBL)` / `bucket_mut(&RECV, &mut TBL)` (`hb_ref`/`hb_mut` for a raw
+                                             hashbrown bucket): the table the bucket is dereferenced in is made explicit
     stake P..                                properties that depend on this function's body although no clause can say so:
                                              if the function leaves the verifier's subset they become UNDECIDED
     fnattr <text>                            extra attribute text placed before the fn
@@ -57,6 +60,7 @@ class Fn:
         self.ret = "r"
         self.external = None
         self.rules = []
+        self.deref = None    # R21: (kind, table place expression)
         self.stake = []
         self.fnattr = []
         self.sigspec = []
@@ -166,6 +170,11 @@ def parse(path):
                 cur_target.external = s.partition("--")[2].strip() or "outside the verifier's subset"
             elif isinstance(cur_target, Fn) and s.startswith("stake "):
                 cur_target.stake += s.split()[1:]
+            elif isinstance(cur_target, Fn) and s.startswith("deref "):
+                _, kind_, tbl_ = s.split(None, 2)
+                if kind_ not in ("griddle", "hb"):
+                    err("deref griddle|hb <table>")
+                cur_target.deref = (kind_, tbl_.strip())
             elif isinstance(cur_target, Fn) and s.startswith("rule "):
                 cur_target.rules.append(s.split()[1])
             elif isinstance(cur_target, Fn) and s.startswith("fnattr "):
